@@ -27,3 +27,199 @@ def pivot_from(prop1: 'seq[tuple[int,int]]', i: int, prop2: 'seq[tuple[int,int]]
         return False
     else:
         return row_has_from(prop1[i], prop2, 0) or pivot_from(prop1, i + 1, prop2)
+
+
+# ---------------------------------------------------------------- propositional semantics of clauses (C18)
+# A *valuation* gives a truth value to every term that is not built by a Boolean connective
+# (`atomv`, uninterpreted: a verification condition that is valid is valid for every valuation).
+# Every standard model of HOL induces such a valuation on closed Boolean terms whose connective
+# constants have their declared types (assumption A1b), and `pv` then computes the truth value of
+# the term in that model. Hence: pv(t) for every valuation  ==>  t is true in every standard model.
+# Equality at a type other than bool is an atom, except that `a = a` is true (sound: a super-set of
+# the valuations induced by models).
+from spec.api import uninterpreted, implies, iff, lemma, requires, ensures, decreases
+from kernel.term import Term, SVar, Var, Const, Comb, Abs, Bound
+from kernel.type import Type, STVar, TVar, TConst
+from spec.terms import bool_ty, fun_ty
+
+
+@uninterpreted
+def atomv(t: 'Term') -> bool:
+    """truth value of an atom under the (arbitrary) valuation"""
+    return True
+
+
+def un_c(t: 'Term', name: str) -> bool:
+    """t = c a for the constant c called `name`"""
+    return t.is_comb() and t.fun.is_const() and t.fun.name == name
+
+
+def bin_c(t: 'Term', name: str) -> bool:
+    """t = c a b for the constant c called `name`"""
+    return t.is_comb() and t.fun.is_comb() and t.fun.fun.is_const() and t.fun.fun.name == name
+
+
+def tern_c(t: 'Term', name: str) -> bool:
+    return t.is_comb() and t.fun.is_comb() and t.fun.fun.is_comb() and t.fun.fun.fun.is_const() and \
+        t.fun.fun.fun.name == name
+
+
+def bool_eq_c(t: 'Term') -> bool:
+    """t = (a = b) where the equality constant is annotated at type bool"""
+    return bin_c(t, 'equals') and t.fun.fun.T == fun_ty(bool_ty(), fun_ty(bool_ty(), bool_ty()))
+
+
+def bool_ite_c(t: 'Term') -> bool:
+    return tern_c(t, 'IF') and \
+        t.fun.fun.fun.T == fun_ty(bool_ty(), fun_ty(bool_ty(), fun_ty(bool_ty(), bool_ty())))
+
+
+def pv(t: 'Term') -> bool:
+    """truth value of the Boolean term t under the valuation atomv"""
+    if bin_c(t, 'conj'):
+        return pv(t.fun.arg) and pv(t.arg)
+    elif bin_c(t, 'disj'):
+        return pv(t.fun.arg) or pv(t.arg)
+    elif bin_c(t, 'implies'):
+        return (not pv(t.fun.arg)) or pv(t.arg)
+    elif un_c(t, 'neg'):
+        return not pv(t.arg)
+    elif bin_c(t, 'xor'):
+        return pv(t.fun.arg) != pv(t.arg)
+    elif bool_eq_c(t):
+        return pv(t.fun.arg) == pv(t.arg)
+    elif bin_c(t, 'equals'):
+        return t.fun.arg == t.arg or atomv(t)
+    elif bool_ite_c(t):
+        return (pv(t.fun.fun.arg) and pv(t.fun.arg)) or ((not pv(t.fun.fun.arg)) and pv(t.arg))
+    elif t.is_const() and t.name == 'true':
+        return True
+    elif t.is_const() and t.name == 'false':
+        return False
+    else:
+        return atomv(t)
+
+
+def pv_any(ts: 'seq[Term]', i: int) -> bool:
+    """some member of ts at position >= i is true"""
+    if i < 0 or i >= len(ts):
+        return False
+    else:
+        return pv(ts[i]) or pv_any(ts, i + 1)
+
+
+def pv_all(ts: 'seq[Term]', i: int) -> bool:
+    """every member of ts at position >= i is true"""
+    if i < 0 or i >= len(ts):
+        return True
+    else:
+        return pv(ts[i]) and pv_all(ts, i + 1)
+
+
+def bool2() -> 'Type':
+    return fun_ty(bool_ty(), fun_ty(bool_ty(), bool_ty()))
+
+
+def mk_disj(a: 'Term', b: 'Term') -> 'Term':
+    return Comb(Comb(Const('disj', bool2()), a), b)
+
+
+def mk_conj(a: 'Term', b: 'Term') -> 'Term':
+    return Comb(Comb(Const('conj', bool2()), a), b)
+
+
+def mk_not(a: 'Term') -> 'Term':
+    return Comb(Const('neg', fun_ty(bool_ty(), bool_ty())), a)
+
+
+def disj_of(ts: 'seq[Term]', i: int) -> 'Term':
+    """ts[i] | (ts[i+1] | ... | ts[-1]), right nested (0 <= i < len(ts))"""
+    if i < 0 or i + 1 >= len(ts):
+        return ts[len(ts) - 1]
+    else:
+        return mk_disj(ts[i], disj_of(ts, i + 1))
+
+
+def conj_of(ts: 'seq[Term]', i: int) -> 'Term':
+    if i < 0 or i + 1 >= len(ts):
+        return ts[len(ts) - 1]
+    else:
+        return mk_conj(ts[i], conj_of(ts, i + 1))
+
+
+@lemma
+def pv_disj_of(ts: 'seq[Term]', i: int):
+    requires(0 <= i and i < len(ts))
+    decreases(len(ts) - i)
+    if i + 1 < len(ts):
+        pv_disj_of(ts, i + 1)
+    ensures(pv(disj_of(ts, i)) == pv_any(ts, i))
+
+
+@lemma
+def pv_conj_of(ts: 'seq[Term]', i: int):
+    requires(0 <= i and i < len(ts))
+    decreases(len(ts) - i)
+    if i + 1 < len(ts):
+        pv_conj_of(ts, i + 1)
+    ensures(pv(conj_of(ts, i)) == pv_all(ts, i))
+
+
+# ---------------------------------------------------------------- well-formedness of the input clauses (assumption A1b
+# made a precondition): the connective constants occur at their declared types, the term is a
+# well-typed Boolean.  (The rule evaluations are only ever given type-checked terms of the veriT proof
+# parser; on ill-typed input such as `~(a = b) | a | ~b` with a, b naturals "consequence" means nothing.)
+from spec.terms import wt, ty_of
+
+
+def const_ok(c: 'Term') -> bool:
+    """a constant named like a connective has the connective's declared type"""
+    if c.name == 'conj' or c.name == 'disj' or c.name == 'implies' or c.name == 'xor':
+        return c.T == bool2()
+    elif c.name == 'neg':
+        return c.T == fun_ty(bool_ty(), bool_ty())
+    elif c.name == 'true' or c.name == 'false':
+        return c.T == bool_ty()
+    elif c.name == 'equals':
+        return c.T.is_tconst() and c.T.name == 'fun' and len(c.T.args) == 2 and \
+            c.T == fun_ty(c.T.args[0], fun_ty(c.T.args[0], bool_ty()))
+    elif c.name == 'IF':
+        return c.T.is_tconst() and c.T.name == 'fun' and len(c.T.args) == 2 and c.T.args[1].is_tconst() and \
+            c.T.args[1].name == 'fun' and len(c.T.args[1].args) == 2 and \
+            c.T == fun_ty(bool_ty(), fun_ty(c.T.args[1].args[0], fun_ty(c.T.args[1].args[0], c.T.args[1].args[0])))
+    else:
+        return True
+
+
+def consts_ok(t: 'Term') -> bool:
+    if t.is_comb():
+        return consts_ok(t.fun) and consts_ok(t.arg)
+    elif t.is_abs():
+        return consts_ok(t.body)
+    elif t.is_const():
+        return const_ok(t)
+    else:
+        return True
+
+
+def wfb(t: 'Term') -> bool:
+    """t is a well-typed Boolean term whose connectives have their declared types"""
+    return wt(t, []) and ty_of(t, []) == bool_ty() and consts_ok(t)
+
+
+def wfb_all(ts: 'seq[Term]', i: int) -> bool:
+    if i < 0 or i >= len(ts):
+        return True
+    else:
+        return wfb(ts[i]) and wfb_all(ts, i + 1)
+
+
+def mk_eqT(T: 'Type', a: 'Term', b: 'Term') -> 'Term':
+    """a = b with the equality constant annotated T"""
+    return Comb(Comb(Const('equals', T), a), b)
+
+
+@lemma
+def sem_equiv_pos2(T: 'Type', a: 'Term', b: 'Term'):
+    requires(wfb(mk_disj(mk_not(mk_eqT(T, a, b)), mk_disj(mk_not(a), b))))
+    ensures(pv(mk_disj(mk_not(mk_eqT(T, a, b)), mk_disj(mk_not(a), b))))
